@@ -72,7 +72,9 @@ Definition sympy_key (n : nat) (x : N) : list bool := rev (msb_first n x).
 Inductive ctrl_use : Type :=
 | CNone        (* the branch does not read gate.control *)
 | CFirst       (* the branch reads gate.control[0] only *)
-| CAll.        (* the branch passes on every control (control_list / num_controls) *)
+| CAll         (* the branch passes on every control (control_list / num_controls, tuple(gate.control)) *)
+| CSplit.      (* `gate.control[0] if len(gate.control) == 1 else tuple(gate.control)`: the single control as an
+                  integer, several controls as a tuple — every control either way *)
 
 Record branch : Type := Branch {
   br_names : list string;      (* the name set of the `if gate.name in {...}` test *)
@@ -109,6 +111,7 @@ Definition controls_used (d : dispatch) (name : string) (cs : list Z) : option (
                     | CNone => []
                     | CFirst => match cs with [] => [] | c :: _ => [c] end
                     | CAll => cs
+                    | CSplit => match cs with [c] => [c] | _ => cs end
                     end)
   end.
 
@@ -132,6 +135,15 @@ Definition cfirst_ok (d : dispatch) : bool :=
                     | _ => true
                     end) (dp_branches d).
 Definition all_controls_ok (d : dispatch) : bool := cnone_ok d && cfirst_ok d.
+
+(* every name of a branch that reads controls is refused when the gate has none
+   (`elif gate.name in {...}: raise ValueError` after `if gate.control is not None:`); names that are renamed
+   only with several controls keep their own branch, so they are listed themselves *)
+Definition no_control_rejected_ok (d : dispatch) (rejected : list string) : bool :=
+  forallb (fun b => match br_ctrl b with
+                    | CNone => true
+                    | _ => forallb (fun nm => smem nm rejected) (br_names b)
+                    end) (dp_branches d).
 
 (* targets: every name of a branch has as many targets (gate.py tables) as the branch reads *)
 Definition targets_ok (T : tables) (d : dispatch) : bool :=
@@ -157,7 +169,7 @@ Definition ext_doc : list (string * string) :=
    ("SYMPYGate.HadamardGate", "H"); ("SYMPYGate.XGate", "X"); ("SYMPYGate.YGate", "Y"); ("SYMPYGate.ZGate", "Z");
    ("SYMPYGate.PhaseGate", "S"); ("SYMPYGate.TGate", "T"); ("SYMPYGate.SwapGate", "SWAP");
    ("SYMPYGate.CNotGate", "CX"); ("rx_gate", "RX"); ("ry_gate", "RY"); ("rz_gate", "RZ"); ("p_gate", "PHASE");
-   ("controlled_gate(SYMPYGate.HadamardGate)", "CH"); ("controlled_gate(SYMPYGate.XGate)", "CX"); ("controlled_gate(SYMPYGate.YGate)", "CY");
+   ("controlled_gate(SYMPYGate.HadamardGate)", "CH"); ("controlled_gate(SYMPYGate.XGate)", "CX"); ("controlled_gate(XGate)", "CX"); ("controlled_gate(SYMPYGate.YGate)", "CY");
    ("controlled_gate(SYMPYGate.ZGate)", "CZ"); ("controlled_gate(rx_gate)", "CRX");
    ("controlled_gate(ry_gate)", "CRY"); ("controlled_gate(rz_gate)", "CRZ"); ("controlled_gate(p_gate)", "CPHASE");
    ("controlled_gate(SYMPYGate.PhaseGate)", "CS"); ("controlled_gate(SYMPYGate.TGate)", "CT")].
